@@ -1,1 +1,537 @@
-// placeholder
+//! The session engine: runs the real `mpd_client::Client` against the simulated world on a
+//! current-thread runtime with paused time and a seeded `select!` PRNG; records the boundary log.
+
+use std::future::Future;
+use std::pin::Pin;
+use std::task::Poll;
+use std::time::Duration;
+
+use mpd_client::client::{Client, CommandError, ConnectWithPasswordError, ConnectionEvent, ConnectionEvents};
+use mpd_client::commands as c;
+use mpd_protocol::command::{Command as RawCommand, CommandList as RawCommandList};
+use mpd_protocol::MpdProtocolError;
+
+use super::typedlists;
+use super::wirerun::frame_to_d;
+use super::world::{CallId, CallResult, Ev, EvKind, Fault, Phase, World, WorldCfg};
+use crate::refmodel::wire::AError;
+use crate::util::panics;
+
+#[derive(Clone, Debug)]
+pub enum Req {
+    Raw { shape: u64 },
+    /// `n` commands, optionally failing at (index, code)
+    RawList { n: usize, fail_at: Option<(usize, u64)>, shape: u64 },
+    TypedTuple { arity: usize, rot: usize, base: u64 },
+    TypedVec { n: usize, base: u64 },
+    TypedStatus,
+    TypedUpdate { token: u64 },
+    AlbumArt { uri: String },
+}
+
+#[derive(Clone, Debug)]
+pub enum Step {
+    Think(Duration),
+    Do(Req),
+    /// futures created and first polled in order, then awaited together
+    Pipelined(Vec<Req>),
+    /// the call's future is dropped after the given virtual time
+    CancelAfter(Duration, Req),
+}
+
+#[derive(Clone, Debug)]
+pub enum ConnectKind {
+    Plain,
+    Password(String),
+    PasswordOpt(Option<String>),
+}
+
+#[derive(Clone, Debug)]
+pub struct Scenario {
+    pub name: String,
+    pub world: WorldCfg,
+    pub rt_seed: u64,
+    pub callers: Vec<(Duration, Vec<Step>)>,
+    pub notifications: Vec<(Duration, Vec<String>)>,
+    pub connect: ConnectKind,
+    /// abort all callers and drop every client handle at this virtual time
+    pub drop_handles_at: Option<Duration>,
+    /// fault-free epilogue: quiet period, idle check, probe notification, handle drop
+    pub epilogue: bool,
+    /// after a fault: issue one more request, check the closed flag
+    pub post_fault_probe: bool,
+    /// keep the events receiver (false: drop it right after connecting)
+    pub keep_events: bool,
+}
+
+impl Scenario {
+    pub fn new(name: &str, seed: u64) -> Scenario {
+        Scenario {
+            name: name.to_string(),
+            world: WorldCfg::plain(seed),
+            rt_seed: seed,
+            callers: Vec::new(),
+            notifications: Vec::new(),
+            connect: ConnectKind::Plain,
+            drop_handles_at: None,
+            epilogue: true,
+            post_fault_probe: false,
+            keep_events: true,
+        }
+    }
+}
+
+#[derive(Clone, Debug, Default)]
+pub struct Outcome {
+    pub log: Vec<Ev>,
+    /// Ok(version) or Err(kind)
+    pub connect: Option<Result<String, String>>,
+    pub hung: Vec<String>,
+    pub panics: Vec<String>,
+    pub d: Duration,
+    pub closed_flag_at_end: Option<bool>,
+    pub phase_after_quiet: Option<Phase>,
+    pub epilogue_probe_delivered: Option<bool>,
+    pub transport_dropped: bool,
+    pub events_ended: bool,
+    pub server_violations: usize,
+    pub s2c_len: u64,
+    pub write_calls: usize,
+    pub line_starts: Vec<u64>,
+    pub greeting_len: u64,
+    pub pending_at_end: Vec<String>,
+    pub fault_fired: bool,
+}
+
+impl Outcome {
+    pub fn render_log(&self, max: usize) -> Vec<String> {
+        let n = self.log.len();
+        if n <= max {
+            self.log.iter().map(|e| e.render()).collect()
+        } else {
+            let mut v: Vec<String> = self.log[..max / 2].iter().map(|e| e.render()).collect();
+            v.push(format!("… {} events omitted …", n - max));
+            v.extend(self.log[n - max / 2..].iter().map(|e| e.render()));
+            v
+        }
+    }
+}
+
+pub const FAR: Duration = Duration::from_secs(3600);
+
+fn proto_kind(e: &MpdProtocolError) -> String {
+    match e {
+        MpdProtocolError::InvalidMessage => "InvalidMessage".to_string(),
+        MpdProtocolError::Io(e) => format!("Io({:?})", e.kind()),
+    }
+}
+
+pub fn cmd_err(e: CommandError) -> CallResult {
+    match e {
+        CommandError::ConnectionClosed => CallResult::ErrClosed,
+        CommandError::Protocol(p) => CallResult::ErrProtocol(proto_kind(&p)),
+        CommandError::ErrorResponse { error, succesful_frames } => CallResult::ErrResponse {
+            error: AError { code: error.code, index: error.command_index, command: error.current_command.as_ref().map(|s| s.to_string()), message: error.message.to_string() },
+            frames: succesful_frames.iter().map(frame_to_d).collect(),
+        },
+        CommandError::InvalidTypedResponse(t) => CallResult::ErrTyped(format!("{}", t)),
+    }
+}
+
+pub fn describe(call: CallId, req: &Req) -> String {
+    match req {
+        Req::Raw { shape } => format!("raw vreq {} {} {}", call.caller, call.seq, shape),
+        Req::RawList { n, fail_at, shape } => format!("rawlist n={} fail_at={:?} shape={}", n, fail_at, shape),
+        other => format!("{:?}", other),
+    }
+}
+
+pub fn raw_lines(call: CallId, req: &Req) -> Vec<RawCommand> {
+    match req {
+        Req::Raw { shape } => vec![RawCommand::new("vreq").argument(call.caller as u64).argument(call.seq as u64).argument(*shape)],
+        Req::RawList { n, fail_at, shape } => (0..*n)
+            .map(|i| match fail_at {
+                Some((f, code)) if *f == i => RawCommand::new("vfail").argument(call.caller as u64).argument(call.seq as u64).argument(*code),
+                _ => RawCommand::new("vreq").argument(call.caller as u64).argument(call.seq as u64).argument(*shape + i as u64).argument(i as u64),
+            })
+            .collect(),
+        _ => vec![],
+    }
+}
+
+async fn exec(client: Client, call: CallId, req: Req) -> CallResult {
+    match &req {
+        Req::Raw { .. } => {
+            let cmd = raw_lines(call, &req).pop().unwrap();
+            match client.raw_command(cmd).await {
+                Ok(f) => CallResult::Frames(vec![frame_to_d(&f)]),
+                Err(e) => cmd_err(e),
+            }
+        }
+        Req::RawList { .. } => {
+            let mut cmds = raw_lines(call, &req).into_iter();
+            let mut list = RawCommandList::new(cmds.next().unwrap());
+            // exercise add / command / extend
+            if let Some(second) = cmds.next() {
+                list = list.command(second);
+            }
+            if let Some(third) = cmds.next() {
+                list.add(third);
+            }
+            list.extend(cmds);
+            match client.raw_command_list(list).await {
+                Ok(fs) => CallResult::Frames(fs.iter().map(frame_to_d).collect()),
+                Err(e) => cmd_err(e),
+            }
+        }
+        Req::TypedTuple { arity, rot, base } => {
+            let t = typedlists::toks(*base, *arity);
+            match typedlists::run_tuple(&client, *arity, *rot, &t).await {
+                Ok(v) => CallResult::Typed(v),
+                Err(e) => cmd_err(e),
+            }
+        }
+        Req::TypedVec { n, base } => {
+            let t = typedlists::toks(*base, *n);
+            let list: Vec<c::Update<'_>> = t.iter().map(|t| c::Update::new().uri(&t.t)).collect();
+            match client.command_list(list).await {
+                Ok(v) => CallResult::Typed(v.iter().map(|x| format!("update:{}", x)).collect()),
+                Err(e) => cmd_err(e),
+            }
+        }
+        Req::TypedStatus => match client.command(c::Status).await {
+            Ok(s) => CallResult::Typed(vec![format!("status:{}", s.playlist_version)]),
+            Err(e) => cmd_err(e),
+        },
+        Req::TypedUpdate { token } => {
+            let uri = format!("t{}", token);
+            match client.command(c::Update::new().uri(&uri)).await {
+                Ok(v) => CallResult::Typed(vec![format!("update:{}", v)]),
+                Err(e) => cmd_err(e),
+            }
+        }
+        Req::AlbumArt { uri } => match client.album_art(uri).await {
+            Ok(v) => CallResult::Art(v.map(|(b, m)| (b.to_vec(), m))),
+            Err(e) => cmd_err(e),
+        },
+    }
+}
+
+async fn run_caller(world: World, client: Client, k: usize, start: Duration, script: Vec<Step>) {
+    tokio::time::sleep(start).await;
+    let mut seq = 0usize;
+    for step in script {
+        match step {
+            Step::Think(d) => tokio::time::sleep(d).await,
+            Step::Do(req) => {
+                let call = CallId { caller: k, seq };
+                seq += 1;
+                world.log_ev(EvKind::CallStart { call, desc: describe(call, &req) });
+                let result = exec(client.clone(), call, req).await;
+                world.log_ev(EvKind::CallEnd { call, result });
+            }
+            Step::CancelAfter(d, req) => {
+                let call = CallId { caller: k, seq };
+                seq += 1;
+                world.log_ev(EvKind::CallStart { call, desc: format!("{} (cancel after {:?})", describe(call, &req), d) });
+                match tokio::time::timeout(d, exec(client.clone(), call, req)).await {
+                    Ok(result) => world.log_ev(EvKind::CallEnd { call, result }),
+                    Err(_) => world.log_ev(EvKind::CallCancelled { call }),
+                }
+            }
+            Step::Pipelined(reqs) => {
+                let mut futs: Vec<(CallId, Option<Pin<Box<dyn Future<Output = CallResult> + Send>>>)> = Vec::new();
+                for req in reqs {
+                    let call = CallId { caller: k, seq };
+                    seq += 1;
+                    world.log_ev(EvKind::CallStart { call, desc: format!("{} (pipelined)", describe(call, &req)) });
+                    futs.push((call, Some(Box::pin(exec(client.clone(), call, req)))));
+                }
+                let w = world.clone();
+                std::future::poll_fn(move |cx| {
+                    let mut all = true;
+                    for (call, slot) in futs.iter_mut() {
+                        if let Some(f) = slot {
+                            match f.as_mut().poll(cx) {
+                                Poll::Ready(result) => {
+                                    w.log_ev(EvKind::CallEnd { call: *call, result });
+                                    *slot = None;
+                                }
+                                Poll::Pending => all = false,
+                            }
+                        }
+                    }
+                    if all {
+                        Poll::Ready(())
+                    } else {
+                        Poll::Pending
+                    }
+                })
+                .await;
+            }
+        }
+    }
+}
+
+async fn collect_events(world: World, mut events: ConnectionEvents) {
+    loop {
+        match events.next().await {
+            Some(ConnectionEvent::SubsystemChange(s)) => world.log_ev(EvKind::EventChange(s.as_str().to_string())),
+            Some(ConnectionEvent::ConnectionClosed(e)) => {
+                let d = match &e {
+                    mpd_client::client::ConnectionError::Protocol(p) => format!("Protocol({})", proto_kind(p)),
+                    mpd_client::client::ConnectionError::InvalidResponse => "InvalidResponse".to_string(),
+                };
+                let _ = format!("{} {:?}", e, e);
+                world.log_ev(EvKind::EventClosed(d));
+            }
+            None => {
+                world.log_ev(EvKind::EventEnd);
+                return;
+            }
+        }
+    }
+}
+
+fn has_event(world: &World, f: impl Fn(&EvKind) -> bool) -> bool {
+    world.inner.lock().unwrap().log.iter().any(|e| f(&e.kind))
+}
+
+async fn wait_for(world: &World, limit: Duration, f: impl Fn(&EvKind) -> bool) -> bool {
+    let deadline = tokio::time::Instant::now() + limit;
+    loop {
+        if has_event(world, &f) {
+            return true;
+        }
+        if tokio::time::Instant::now() >= deadline {
+            return false;
+        }
+        tokio::time::sleep(Duration::from_millis(5)).await;
+    }
+}
+
+async fn session_main(sc: Scenario) -> Outcome {
+    let mut out = Outcome { d: mpd_client::verif_hooks::next_command_idle_timeout(), ..Default::default() };
+    let world = World::new(sc.world.clone());
+    out.greeting_len = sc.world.greeting.len() as u64;
+    {
+        let w = world.clone();
+        mpd_client::verif_hooks::set_sink(Some(Box::new(move |e| w.log_ev(EvKind::Hook(format!("{:?}", e))))));
+    }
+    let server = tokio::spawn(world.clone().run_server());
+    let deliverer = tokio::spawn(world.clone().run_deliverer());
+    // notification schedule
+    let mut notifier = {
+        let w = world.clone();
+        let sched = sc.notifications.clone();
+        tokio::spawn(async move {
+            let t0 = tokio::time::Instant::now();
+            for (t, names) in sched {
+                tokio::time::sleep_until(t0 + t).await;
+                w.change(&names);
+            }
+        })
+    };
+    if let Fault::ServerCloseAt(t) = sc.world.fault.clone() {
+        let w = world.clone();
+        tokio::spawn(async move {
+            tokio::time::sleep(t).await;
+            w.log_ev(EvKind::Fault(format!("server closes the connection at {:?}", t)));
+            w.inner.lock().unwrap().fault_fired = true;
+            w.close_server();
+        });
+    }
+
+    // connect
+    let io = world.io();
+    let connected = tokio::time::timeout(FAR, async {
+        match &sc.connect {
+            ConnectKind::Plain => Client::connect(io).await.map_err(|e| format!("Protocol({})", proto_kind(&e))),
+            ConnectKind::Password(p) => Client::connect_with_password(io, p).await.map_err(|e| match e {
+                ConnectWithPasswordError::IncorrectPassword => "IncorrectPassword".to_string(),
+                ConnectWithPasswordError::ProtocolError(e) => format!("Protocol({})", proto_kind(&e)),
+            }),
+            ConnectKind::PasswordOpt(p) => Client::connect_with_password_opt(io, p.as_deref()).await.map_err(|e| match e {
+                ConnectWithPasswordError::IncorrectPassword => "IncorrectPassword".to_string(),
+                ConnectWithPasswordError::ProtocolError(e) => format!("Protocol({})", proto_kind(&e)),
+            }),
+        }
+    })
+    .await;
+    let (client, events) = match connected {
+        Err(_) => {
+            out.hung.push("connect".to_string());
+            out.connect = Some(Err("hang".to_string()));
+            finish(&world, &mut out, server, deliverer, notifier).await;
+            return out;
+        }
+        Ok(Err(e)) => {
+            out.connect = Some(Err(e));
+            // give in-flight writes time to reach the server, then stop
+            tokio::time::sleep(Duration::from_secs(2)).await;
+            finish(&world, &mut out, server, deliverer, notifier).await;
+            return out;
+        }
+        Ok(Ok((client, events))) => {
+            out.connect = Some(Ok(client.protocol_version().to_string()));
+            (client, events)
+        }
+    };
+    let collector = if sc.keep_events { Some(tokio::spawn(collect_events(world.clone(), events))) } else { None };
+
+    // callers
+    let mut handles = Vec::new();
+    let mut aborts = Vec::new();
+    for (k, (start, script)) in sc.callers.iter().enumerate() {
+        let h = tokio::spawn(run_caller(world.clone(), client.clone(), k, *start, script.clone()));
+        aborts.push(h.abort_handle());
+        handles.push((k, h));
+    }
+    let mut client = Some(client);
+    let join_all = async {
+        let mut hung = Vec::new();
+        let mut pan = Vec::new();
+        for (k, h) in handles {
+            match tokio::time::timeout(FAR, h).await {
+                Err(_) => hung.push(format!("caller {}", k)),
+                Ok(Err(e)) if e.is_panic() => pan.push(format!("caller {} panicked: {}", k, panics::take_last().unwrap_or_default())),
+                Ok(_) => {}
+            }
+        }
+        (hung, pan)
+    };
+    let mut dropped_by_plan = false;
+    match sc.drop_handles_at {
+        None => {
+            let (h, p) = join_all.await;
+            out.hung.extend(h);
+            out.panics.extend(p);
+        }
+        Some(t) => {
+            tokio::pin!(join_all);
+            tokio::select! {
+                biased;
+                (h, p) = &mut join_all => {
+                    out.hung.extend(h);
+                    out.panics.extend(p);
+                }
+                _ = tokio::time::sleep(t) => {
+                    for a in &aborts {
+                        a.abort();
+                    }
+                    client = None;
+                    world.log_ev(EvKind::Fault(format!("all client handles dropped at {:?}", t)));
+                    world.inner.lock().unwrap().fault_fired = true;
+                    world.log_ev(EvKind::HandlesDropped);
+                    dropped_by_plan = true;
+                    // aborted tasks finish at their next poll
+                    let _ = tokio::time::timeout(Duration::from_secs(5), &mut join_all).await;
+                }
+            }
+        }
+    }
+    // hung callers keep their client clones alive; abort them so that the rest of the protocol can be observed
+    if !out.hung.is_empty() {
+        for a in &aborts {
+            a.abort();
+        }
+        tokio::time::sleep(Duration::from_millis(1)).await;
+    }
+
+    if sc.epilogue && out.hung.is_empty() && !dropped_by_plan {
+        // wait for quiescence (notification schedule finished, all server output delivered), then a
+        // quiet period: the client must have re-idled
+        let _ = tokio::time::timeout(FAR, &mut notifier).await;
+        for _ in 0..10_000 {
+            // a quiet period counts only if nothing was in transit at its start and nothing happened during it
+            let before = (world.all_output_delivered(), world.inner.lock().unwrap().log.len());
+            tokio::time::sleep(out.d * 4 + Duration::from_secs(1)).await;
+            let after = (world.all_output_delivered(), world.inner.lock().unwrap().log.len());
+            if before.0 && after.0 && before.1 == after.1 {
+                break;
+            }
+        }
+        out.phase_after_quiet = Some(world.inner.lock().unwrap().phase);
+        // end-to-end probe: notifications keep flowing
+        world.change(&["epilogue_probe".to_string()]);
+        if sc.keep_events {
+            out.epilogue_probe_delivered = Some(wait_for(&world, Duration::from_secs(30), |e| matches!(e, EvKind::EventChange(n) if n == "epilogue_probe")).await);
+        }
+        // let the client re-idle after the probe
+        tokio::time::sleep(Duration::from_secs(1)).await;
+    }
+    if sc.post_fault_probe && !dropped_by_plan {
+        tokio::time::sleep(Duration::from_secs(2)).await;
+        if let Some(cl) = client.as_ref() {
+            out.closed_flag_at_end = Some(cl.is_connection_closed());
+            // a later request must resolve as well
+            let call = CallId { caller: 99, seq: 0 };
+            let req = Req::Raw { shape: 1 };
+            world.log_ev(EvKind::CallStart { call, desc: "post-closure probe request".into() });
+            match tokio::time::timeout(FAR, exec(cl.clone(), call, req)).await {
+                Ok(result) => world.log_ev(EvKind::CallEnd { call, result }),
+                Err(_) => out.hung.push("post-closure probe request".to_string()),
+            }
+            tokio::time::sleep(Duration::from_millis(10)).await;
+            out.closed_flag_at_end = Some(cl.is_connection_closed());
+        }
+    }
+    // drop every handle
+    if client.is_some() {
+        drop(client.take());
+        world.log_ev(EvKind::HandlesDropped);
+    }
+    out.transport_dropped = wait_for(&world, Duration::from_secs(30), |e| matches!(e, EvKind::TransportDropped)).await;
+    if let Some(col) = collector {
+        match tokio::time::timeout(Duration::from_secs(60), col).await {
+            Ok(_) => out.events_ended = true,
+            Err(_) => out.events_ended = false,
+        }
+    }
+    finish(&world, &mut out, server, deliverer, notifier).await;
+    out
+}
+
+async fn finish(world: &World, out: &mut Outcome, server: tokio::task::JoinHandle<()>, deliverer: tokio::task::JoinHandle<()>, notifier: tokio::task::JoinHandle<()>) {
+    server.abort();
+    deliverer.abort();
+    notifier.abort();
+    mpd_client::verif_hooks::set_sink(None);
+    if let Some(p) = panics::take_last() {
+        out.panics.push(format!("panic in a spawned task: {}", p));
+    }
+    let g = world.inner.lock().unwrap();
+    out.log = g.log.clone();
+    out.server_violations = g.violations;
+    out.s2c_len = g.s2c_written;
+    out.write_calls = g.write_calls;
+    out.line_starts = g.line_starts.clone();
+    out.pending_at_end = g.pending.clone();
+    out.fault_fired = g.fault_fired;
+    if !out.transport_dropped {
+        out.transport_dropped = g.dropped;
+    }
+}
+
+/// Run one session to completion on a fresh current-thread runtime with paused time.
+pub fn run_session(sc: &Scenario) -> Outcome {
+    let rt = tokio::runtime::Builder::new_current_thread()
+        .enable_time()
+        .start_paused(true)
+        .rng_seed(tokio::runtime::RngSeed::from_bytes(&sc.rt_seed.to_le_bytes()))
+        .build()
+        .expect("runtime");
+    let sc2 = sc.clone();
+    let _ = panics::take_last();
+    let res = panics::catch(|| rt.block_on(session_main(sc2)));
+    drop(rt);
+    mpd_client::verif_hooks::set_sink(None);
+    match res {
+        Ok(o) => o,
+        Err(p) => {
+            let mut o = Outcome::default();
+            o.panics.push(format!("session driver panicked: {}", p.0));
+            o
+        }
+    }
+}
